@@ -17,6 +17,9 @@ type C16Case struct {
 	Control int   `json:",omitempty"` // control-byte probe: value of the byte
 	Second  bool  `json:",omitempty"` // probe as second chunk after a legal first one
 	Probe   bool  `json:",omitempty"`
+	// SameProps: every properties-carrying chunk repeats the same lc/lp/pb (a "new properties"
+	// chunk still implies a state reset); otherwise the properties rotate
+	SameProps bool `json:",omitempty"`
 }
 
 func init() {
@@ -42,7 +45,7 @@ var c16Props = []ref.Props{{LC: 1, LP: 1, PB: 2}, {LC: 2, LP: 0, PB: 1}, {LC: 1,
 // after a state reset are coded against fresh probabilities while earlier
 // chunks adapted them; "new props" chunks rotate lc/lp/pb; chunks without
 // dictionary reset reach into the previous chunk.
-func c16Build(kinds []int) (data []byte, plains [][]byte, offsets []int) {
+func c16Build(kinds []int, sameProps bool) (data []byte, plains [][]byte, offsets []int) {
 	g := ref.NewLZMA2Gen()
 	pi := 0
 	for i, k := range kinds {
@@ -69,7 +72,7 @@ func c16Build(kinds []int) (data []byte, plains [][]byte, offsets []int) {
 			}
 			ops = append(ops, ref.Op{Kind: ref.OpLit, Byte: 'a'}, ref.Op{Kind: ref.OpShortRep}, ref.Op{Kind: ref.OpLit, Byte: 0xFF})
 			pr := c16Props[pi%len(c16Props)]
-			if kind == ref.CLZMAProps || kind == ref.CLZMAFull {
+			if (kind == ref.CLZMAProps || kind == ref.CLZMAFull) && !sameProps {
 				pi++
 				pr = c16Props[pi%len(c16Props)]
 			}
@@ -99,7 +102,7 @@ func kindsString(kinds []int) string {
 
 func c16Sequence(r *core.Run, p C16Case) {
 	cs := core.MkCase("C16", "sequence", p)
-	data, plains, _ := c16Build(p.Kinds)
+	data, plains, _ := c16Build(p.Kinds, p.SameProps)
 	// specification verdict
 	a := ref.NewChunkAutomaton()
 	legalPrefix := 0
@@ -137,7 +140,7 @@ func c16Sequence(r *core.Run, p C16Case) {
 		panic(fmt.Sprintf("C16 harness error: liblzma accepts the sequence %s the automaton calls illegal", kindsString(p.Kinds)))
 	}
 	out, err, proto, pan := lzma2Decode(data, 4096)
-	desc := fmt.Sprintf("chunk kinds [%s]+end; specification: legal=%v (legal prefix %d chunks)", kindsString(p.Kinds), legal, legalPrefix)
+	desc := fmt.Sprintf("chunk kinds [%s]+end (same properties in every chunk: %v); specification: legal=%v (legal prefix %d chunks)", kindsString(p.Kinds), p.SameProps, legal, legalPrefix)
 	cls := errClass(err)
 	site := "lzma2R seq "
 	if legal {
@@ -294,6 +297,9 @@ func runC16(r *core.Run) {
 	var rec func(pref []int)
 	rec = func(pref []int) {
 		cases = append(cases, C16Case{Kinds: append([]int(nil), pref...)})
+		if len(pref) > 1 {
+			cases = append(cases, C16Case{Kinds: append([]int(nil), pref...), SameProps: true})
+		}
 		if len(pref) == depth {
 			return
 		}
@@ -306,6 +312,7 @@ func runC16(r *core.Run) {
 		cases = append(cases, C16Case{Probe: true, Control: c}, C16Case{Probe: true, Control: c, Second: true})
 	}
 	r.Extra("sequences", len(cases)-512)
+	r.Note("every sequence of two or more chunks is realised twice: with rotating properties and with the same properties in every chunk")
 	r.Extra("control_byte_probes", 512)
 	r.Extra("liblzma_second_opinion", liblzmaAvailable())
 	r.Sample(map[string]interface{}{"kinds": kindsString(cases[100].Kinds) + ",end"})
